@@ -109,6 +109,17 @@ def print_assumptions(prop, requires, theorems):
             res[cur] += line.strip() + " "
     return {k: v.strip() for k, v in res.items()}, out
 
+def coqchk(prop, timeout=3000):
+    """independent re-check of the compiled Props module and everything it depends on;
+    returns (ok, axioms-text, log-tail)"""
+    with Lock(os.path.join(COQ, ".lock")):
+        rc, out = sh(["coqchk", "-silent", "-o", "-Q", ".", "GP", "GP.Props." + prop], cwd=COQ, timeout=timeout)
+    ax = ""
+    if "Axioms:" in out or "axioms" in out.lower():
+        i = out.find("CONTEXT SUMMARY")
+        ax = out[i:] if i >= 0 else out[-1500:]
+    return rc == 0, ax.strip(), out[-1500:]
+
 def parse_coq_value(out):
     """parse the value printed by `Eval vm_compute in ...` / Print: nested lists/tuples of nats,
     bools, strings -> python objects (first ' = ' block)."""
